@@ -2,6 +2,7 @@
 From Coq Require Import List ZArith QArith Qcanon Bool Arith.
 From Dimod Require Import Base.Util Model.Poly Model.HPoly Model.Samples
   Proofs.PolyFacts Proofs.HPolyFacts Proofs.SamplesFacts.
+From Dimod Require Model.Adj Proofs.AdjEnergy.
 Import ListNotations.
 Open Scope Qc_scope.
 
@@ -76,6 +77,14 @@ Theorem C01_dqm_energy_value :
     dqm_energy p stride ncases row = Some e -> e = energy p (dqm_sample stride row).
 Proof. exact dqm_energy_value. Qed.
 Print Assumptions C01_dqm_energy_value.
+
+(* the code's evaluation loop (abc.h energy: per variable, walk the sorted neighbourhood
+   and break at the first index above the variable) computes the polynomial value *)
+Theorem C01_lower_triangle_walk :
+  forall (m : Adj.qm) (s : nat -> Qc),
+    Adj.Inv m -> Adj.energy_adj m s = energy (Adj.abs m) s.
+Proof. exact AdjEnergy.energy_adj_abs. Qed.
+Print Assumptions C01_lower_triangle_walk.
 
 (* non-vacuity *)
 Example C01_example_3cycle :
